@@ -220,6 +220,8 @@ def finish_lines(r):
     last = json.loads(lines[-1])["ev"]
     if r["rc"] == 3 or (r["rc"] != 0 and last == "crash"):
         pass                                        # the harness wrote its own "stall" / "crash" line
+    elif r["rc"] == 4:
+        pass                                        # set-up trouble: no verdict of its own (see the end of the check)
     elif r["rc"] != 0:
         lines.append(LINE.strip() % (x, n, "crash", r["rc"] if r["rc"] > -999 else 0))
         n += 1
@@ -415,7 +417,7 @@ def check(pid, tier, seed):
         raise InternalError("the driver stalled (no progress for 240 s) in execution %d %s without any recorded violation; "
                             "stderr: %s" % (stalled[0], r["params"], r["stderr"][-1500:]))
     for r in runs:
-        if r["rc"] == 4:
+        if r["rc"] == 4 and not violations:
             raise InternalError("the driver could not set up its scenario: %s\n%s" % (r["params"], r["stderr"][-2000:]))
 
     # ---- 2b. collect the model runs ---------------------------------------------------------
